@@ -1554,3 +1554,38 @@ def measure_axioms(ctx, preamble: str, lemma):
     ctx.coverage["generated_lemma_axioms"] = ax or ["Closed under the global context"]
     ctx.coverage["axioms"] = sorted(set(ctx.coverage.get("axioms", [])) | set(ax))
     return ax
+
+
+def replay_values(c, val) -> int:
+    """print both readings at the recorded valuation; 1 when they differ (confirmed at 60 digits), else 0"""
+    a = c.get("parsed")
+    if a is None or c.get("sides") is None or not val:
+        return 0
+    val = {k: (complex(v) if isinstance(v, str) else v) for k, v in val.items()}
+    if len(c["sides"]) == 2 and a[0] == "bin" and a[1] == "OEq":
+        psides = (a[2], a[3])
+    elif len(c["sides"]) == 1:
+        psides = (a,)
+    else:
+        print("the rendering of an equation does not parse as an equation")
+        return 1
+    bad = 0
+    for o, p in zip(c["sides"], psides):
+        eu = c.get("euler", "E")
+        pr = aexpr_rtree(p, {eu: EULER} if eu and eu not in var_names(o) else None)
+        if not (set(var_names(o)) | set(var_names(pr))) <= set(val):
+            continue
+        try:
+            x, y = evaluate(o, val), evaluate(pr, val)
+        except KeyError as e:
+            print("rendering mentions an unknown name:", e)
+            bad = 1
+            continue
+        except (ZeroDivisionError, OverflowError, ValueError) as e:
+            print("evaluation failed:", type(e).__name__, e)
+            continue
+        diff = (not close(x, y)) and confirmed_different(o, pr, val)
+        print(f"at {val}: original = {x}   rendering = {y}   {'DIFFERENT' if diff else 'equal'}")
+        if diff:
+            bad = 1
+    return bad
